@@ -45,8 +45,11 @@ type Workload struct {
 	Procs      int      `json:"gomaxprocs"`
 	Plans      [][]Op   `json:"plans"`
 	Changes    []Change `json:"changes"`
-	YieldUs    int      `json:"yield_us"`   // perturbation at the hook points
-	EarlyStop  bool     `json:"early_stop"` // Destroy() is issued while run-time changes are still being applied (shutdown during an update)
+	YieldUs    int      `json:"yield_us"` // perturbation at the hook points
+	// StallAtStop: when the cache is stopped a store is in flight whose source has delivered part of its body and
+	// then stalls (an upstream that stopped sending); it holds its key's shard lock. Stopping must not wait for it.
+	StallAtStop bool `json:"stall_at_stop,omitempty"`
+	EarlyStop   bool `json:"early_stop"` // Destroy() is issued while run-time changes are still being applied (shutdown during an update)
 }
 
 const watchdog = 15 * time.Second
@@ -154,10 +157,31 @@ var subWL = ev.Register("cache-workloads",
 				}
 			}()
 			wg.Wait()
+			stallRelease := make(chan struct{})
+			stallDone := make(chan struct{})
+			if w.StallAtStop {
+				started := make(chan struct{})
+				go func() {
+					defer close(stallDone)
+					src := &stallingReader{head: cachekit.Body(0, 999, 64), started: started, release: stallRelease}
+					if e, err := k.C.Cache(cachekit.Key(0), src, time.Now().Add(time.Hour), cachekit.Meta{Key: "k0", Ver: 999, Len: 64}); err == nil && e != nil && e.Data != nil {
+						e.Data.Close()
+					}
+				}()
+				select {
+				case <-started:
+				case <-time.After(2 * time.Second):
+				}
+			} else {
+				close(stallDone)
+			}
 			phase.Store("destroy")
 			k.C.Destroy()
 			phase.Store("second destroy")
 			k.C.Destroy()
+			close(stallRelease)
+			phase.Store("stalled store released after the stop")
+			<-stallDone
 			cwg.Wait()
 		}()
 		select {
@@ -179,10 +203,35 @@ var subWL = ev.Register("cache-workloads",
 		o.Classf("janitor-cycles:%v", runs > 0)
 		o.Classf("config-changes:%d", len(w.Changes))
 		o.Classf("stop-during-changes:%v", w.EarlyStop && len(w.Changes) > 0)
+		o.Classf("stalled-store-at-stop:%v", w.StallAtStop)
 		o.NonTrivial = ev > 0 && runs > 0
 		k.Close()
 		return nil
 	})
+
+// stallingReader delivers head, signals, and then blocks until released (then ends with an error: the
+// upstream went away).
+type stallingReader struct {
+	head     []byte
+	off      int
+	started  chan struct{}
+	release  chan struct{}
+	signaled bool
+}
+
+func (r *stallingReader) Read(p []byte) (int, error) {
+	if r.off < len(r.head)/2 {
+		n := copy(p, r.head[r.off:len(r.head)/2])
+		r.off += n
+		return n, nil
+	}
+	if !r.signaled {
+		r.signaled = true
+		close(r.started)
+	}
+	<-r.release
+	return 0, cachekit.ErrInjected
+}
 
 func clip(s string, n int) string {
 	if len(s) > n {
@@ -200,6 +249,7 @@ func drawWorkload(t *rapid.T) Workload {
 		YieldUs:   rapid.SampledFrom([]int{0, 0, 50, 500}).Draw(t, "yield"),
 		EarlyStop: rapid.IntRange(0, 2).Draw(t, "early-stop") == 0,
 	}
+	w.StallAtStop = rapid.IntRange(0, 2).Draw(t, "stall-at-stop") == 0
 	body := rapid.SampledFrom([]int{100, 4000, 60000}).Draw(t, "body")
 	w.LimitBytes = int64(body) * int64(rapid.IntRange(2, 3).Draw(t, "bodies"))
 	keys := rapid.SampledFrom([]int{2, 4, 12}).Draw(t, "keys")
